@@ -161,3 +161,57 @@ pub fn vec_eq(a: &[i64], b: &[i64]) -> bool {
     }
     ok
 }
+
+/// C02: scan for `<` / `>` (optionally followed by `=`); returns the operators as
+/// (position, end-of-operator, op index) or None when the count/order rule is violated.
+pub fn parse_dewey(p: &[u8]) -> Option<Vec<(usize, usize, usize)>> {
+    let mut ops: Vec<(usize, usize, usize)> = Vec::new();
+    let mut i = 0;
+    while i < p.len() {
+        let b = p[i];
+        if b == b'<' || b == b'>' {
+            let eq = i + 1 < p.len() && p[i + 1] == b'=';
+            let op = if b == b'<' {
+                if eq { 0 } else { 1 }
+            } else if eq {
+                2
+            } else {
+                3
+            };
+            ops.push((i, if eq { i + 2 } else { i + 1 }, op));
+        }
+        i += 1;
+    }
+    if ops.len() == 1 {
+        return Some(ops);
+    }
+    if ops.len() == 2 && ops[0].2 >= 2 && ops[1].2 <= 1 {
+        return Some(ops);
+    }
+    None
+}
+
+/// index of the last `-` in `s`
+pub fn last_dash(s: &[u8]) -> Option<usize> {
+    let mut i = s.len();
+    while i > 0 {
+        i -= 1;
+        if s[i] == b'-' {
+            return Some(i);
+        }
+    }
+    None
+}
+
+pub fn bytes_eq(a: &[u8], b: &[u8]) -> bool {
+    if a.len() != b.len() {
+        return false;
+    }
+    let mut ok = true;
+    let mut i = 0;
+    while i < a.len() {
+        ok = ok & (a[i] == b[i]);
+        i += 1;
+    }
+    ok
+}
